@@ -109,11 +109,11 @@ type c15FLOut struct {
 const c15FLFree = int64(1) << 40
 
 type c15FLSession struct {
-	sc       c15FLScenario
-	f        *DynamicFanOut[int64]
-	in       chan int64
-	bound    time.Duration
-	quiet    time.Duration
+	sc    c15FLScenario
+	f     *DynamicFanOut[int64]
+	in    chan int64
+	bound time.Duration
+	quiet time.Duration
 
 	started, done atomic.Int64
 	leadRecv      atomic.Int64
